@@ -87,7 +87,7 @@ def gen_rate(r):
         return (-r.randint(1, 5000), r.randint(0, 3))
     if k < 0.7:
         return (r.randint(1, 50000), r.randint(0, 4))
-    if k < 0.95:
+    if k < 0.98:
         return (r.randint(1, 10 ** 9), r.randint(0, 9))
     return (r.randint(10 ** 20, 10 ** 27), r.randint(0, 20))
 
@@ -96,9 +96,9 @@ def gen_amount(r):
     k = r.random()
     if k < 0.6:
         return (r.choice([1, -1]) * r.randint(1, 5000), r.choice([0, 0, 1, 2]))
-    if k < 0.93:
+    if k < 0.97:
         return (r.choice([1, -1]) * r.randint(1, 10 ** 8), r.randint(0, 6))
-    return (r.choice([1, -1]) * r.randint(10 ** 15, 10 ** 24), r.randint(0, 12))
+    return (r.choice([1, -1]) * r.randint(10 ** 12, 10 ** 18), r.randint(0, 8))
 
 
 def gen_journal(r, comms, anc):
@@ -163,6 +163,10 @@ def gen_entries(r, comms, tgt, anc, self_pair=False, dups=False):
                     continue
             seen.add((ns, b, q))
             ents.append({"ns": ns, "base": b, "rate": gen_rate(r), "eq": q})
+    if not ents:
+        # a price file needs at least one line (an empty one is a configuration error, generated separately)
+        b = r.choice([c for c in comms if c != tgt] or others)
+        ents.append({"ns": around(r, anc), "base": b, "rate": gen_rate(r), "eq": r.choice([tgt, tgt, r.choice(others)])})
     if dups and ents:
         for _ in range(r.randint(1, 3)):
             e = dict(r.choice(ents)); e["rate"] = gen_rate(r); ents.append(e)
@@ -188,7 +192,7 @@ def file_text(r, ents):
 
 def gen_case(r):
     anc = anchors(r)
-    comms = r.sample(POOL, r.randint(0, 4))
+    comms = r.sample(POOL, r.choice([0, 1, 2, 2, 3, 3, 4]))
     k = r.random()
     tgt = "EUR" if k < 0.6 else (r.choice(comms) if comms and k < 0.9 else r.choice(POOL))
     lt = r.choice(["txn-time"] * 8 + ["last-price"] * 5 + ["given-time"] * 5 + ["none"] * 2)
